@@ -1,7 +1,9 @@
 package sim
 
 import (
+	"runtime"
 	"sort"
+	"strings"
 	"sync"
 	"sync/atomic"
 	"time"
@@ -28,12 +30,33 @@ type VClock struct {
 // point the real program has: any clock read may be descheduled), without a hook in the code.
 type nowGate struct {
 	taken  atomic.Bool
+	caller string // when set: only a goroutine with a function whose name contains this on its stack is parked
 	parked chan struct{}
 	open   chan struct{}
 }
 
 func (c *VClock) ArmNowGate() {
 	c.gate.Store(&nowGate{parked: make(chan struct{}), open: make(chan struct{})})
+}
+
+// ArmNowGateFor parks the first Now() call made underneath a function whose name contains caller.
+func (c *VClock) ArmNowGateFor(caller string) {
+	c.gate.Store(&nowGate{caller: caller, parked: make(chan struct{}), open: make(chan struct{})})
+}
+
+func calledFrom(substr string) bool {
+	pcs := make([]uintptr, 48)
+	n := runtime.Callers(3, pcs)
+	frames := runtime.CallersFrames(pcs[:n])
+	for {
+		f, more := frames.Next()
+		if strings.Contains(f.Function, substr) {
+			return true
+		}
+		if !more {
+			return false
+		}
+	}
 }
 
 // WaitNowGateParked reports whether some goroutine is parked in Now() (false: real-time watchdog expired).
@@ -70,7 +93,7 @@ func NewVClock(start time.Time) *VClock {
 }
 
 func (c *VClock) Now() time.Time {
-	if g := c.gate.Load(); g != nil && g.taken.CompareAndSwap(false, true) {
+	if g := c.gate.Load(); g != nil && (g.caller == "" || calledFrom(g.caller)) && g.taken.CompareAndSwap(false, true) {
 		close(g.parked)
 		<-g.open
 	}
